@@ -1,19 +1,32 @@
 """backtesting.config.Config: precision look-ups are pure functions of the configuration."""
-from pyvc.contracts import contract, specfun
+from pyvc.contracts import contract, specfun, class_invariant
 
 CFG = "basana.backtesting.config.Config."
 P = ["C01", "C04", "C06", "C08", "C09", "C11"]
 
-specfun("cfg_has_pair", ["c", "p"],
+# The configuration is fixed before the backtest starts.  Its look-up functions are mirrored by two ghost maps (gp: pair ->
+# PairInfo, gs: symbol -> SymbolInfo) so that client contracts name a precision by a term that does not depend on the
+# dict heap; the class invariant ties the ghost maps to the real fields (get_* are verified under it; the set_* methods
+# run at set-up time and are not on any property's path).
+specfun("cfg_has_pair", ["c", "p"], "p in c.gp")
+specfun("cfg_pair_info", ["c", "p"], "c.gp[p]")
+specfun("cfg_has_symbol", ["c", "s"], "s in c.gs")
+specfun("cfg_symbol_info", ["c", "s"], "c.gs[s]")
+class_invariant("Config",
+                [("pairs", "forall(lambda p=Pair: (p in self.gp) == real_has_pair(self, p) and implies(p in self.gp, self.gp[p] == real_pair_info(self, p)))"),
+                 ("symbols", "forall(lambda s=Str: (s in self.gs) == real_has_symbol(self, s) and implies(s in self.gs, self.gs[s] == real_symbol_info(self, s)))")],
+                private=["_symbol_info", "_default_symbol_info", "_pair_info", "_default_pair_info", "gp", "gs"], props=["C08"])
+
+specfun("real_has_pair", ["c", "p"],
         "(p in c._pair_info) or ((p.base_symbol in c._symbol_info) and (p.quote_symbol in c._symbol_info)) "
         "or not_none(c._default_pair_info)")
-specfun("cfg_pair_info", ["c", "p"],
+specfun("real_pair_info", ["c", "p"],
         "ite(p in c._pair_info, c._pair_info[p], "
         "ite((p.base_symbol in c._symbol_info) and (p.quote_symbol in c._symbol_info), "
         "mkval('PairInfo', c._symbol_info[p.base_symbol].precision, c._symbol_info[p.quote_symbol].precision), "
         "c._default_pair_info))")
-specfun("cfg_has_symbol", ["c", "s"], "(s in c._symbol_info) or not_none(c._default_symbol_info)")
-specfun("cfg_symbol_info", ["c", "s"], "ite(s in c._symbol_info, c._symbol_info[s], c._default_symbol_info)")
+specfun("real_has_symbol", ["c", "s"], "(s in c._symbol_info) or not_none(c._default_symbol_info)")
+specfun("real_symbol_info", ["c", "s"], "ite(s in c._symbol_info, c._symbol_info[s], c._default_symbol_info)")
 # "an exchange whose traded symbols have their precision configured": the pair's precisions are those of its symbols
 specfun("wf_config", ["c", "p"],
         "cfg_has_pair(c, p) and cfg_has_symbol(c, p.base_symbol) and cfg_has_symbol(c, p.quote_symbol) "
